@@ -305,7 +305,7 @@ pub fn run_files(args: &[String]) {
     let mut jobs: Vec<(usize, String, u64)> = Vec::new();
     let kinds = ["none", "value:commitment", "value:oods", "value:leaf", "value:auth", "value:fri_leaf", "value:memory", "swap:leaves", "swap:auth", "remove:leaf", "remove:auth", "remove:commitment",
                  "remove:nonce", "dup:leaf", "dup:commitment", "segment:unknown", "segment:remove", "hex:memory", "hex:memory:+", "hex:memory:0x_", "hex:memory:0xg", "hex:memory:empty", "hex:memory:0x", "hex:annotation", "hex:in-list", "pow_bits:255", "pow_bits:256", "pow_bits:300",
-                 "nonce:0", "nonce:max64", "nonce:2^64", "steps:empty", "steps:huge", "n_steps:odd", "n_steps:2^31", "last_bound:100", "page:1", "page:first", "page:last-listed-first", "memory:rotate", "memory:swap01", "rc", "nvf", "dyn:value", "dyn:remove", "dyn:cpu_step=8", "dyn:cpu_step=3", "dyn:cpu_step=0", "dyn:cols_first+1", "dyn:cols_second+1", "dup:fri_commit", "steps:drop-last", "steps:append", "layout:unknown"];
+                 "nonce:0", "nonce:max64", "nonce:2^64", "steps:empty", "steps:huge", "n_steps:odd", "n_steps:2^31", "last_bound:100", "page:1", "page:top32", "page:wrap32", "page:first", "page:last-listed-first", "memory:rotate", "memory:swap01", "rc", "nvf", "dyn:value", "dyn:remove", "dyn:cpu_step=8", "dyn:cpu_step=3", "dyn:cpu_step=0", "dyn:cols_first+1", "dyn:cols_second+1", "dup:fri_commit", "steps:drop-last", "steps:append", "layout:unknown"];
     for (fi, _) in files.iter().enumerate() { for k in kinds { for r in 0..(if k == "none" { 1 } else { per }) { jobs.push((fi, k.to_string(), r)); } } }
     let res = par_map(&jobs, n_threads(), |_, (fi, kind, r)| {
         let f = &files[*fi];
@@ -356,6 +356,11 @@ pub fn run_files(args: &[String]) {
             "last_bound:100" => v["proof_parameters"]["stark"]["fri"]["last_layer_degree_bound"] = json!(100),
             "page:1" => { let n = v["public_input"]["public_memory"].as_array().unwrap().len(); v["public_input"]["public_memory"][n - 1]["page"] = json!(1); }
             // the padding cell is the first entry of the list as written, whatever page it is on and wherever the main page starts
+            // a continuous page at the top of the 32-bit address range: ending exactly at 2^32 - 1 is a page; running past it is not consecutive
+            "page:top32" => { let n = v["public_input"]["public_memory"].as_array().unwrap().len(); let e = &mut v["public_input"]["public_memory"][n - 1]; e["page"] = json!(1); e["address"] = json!(4294967295u64); }
+            "page:wrap32" => { let n = v["public_input"]["public_memory"].as_array().unwrap().len();
+                { let e = &mut v["public_input"]["public_memory"][n - 2]; e["page"] = json!(1); e["address"] = json!(4294967295u64); }
+                { let e = &mut v["public_input"]["public_memory"][n - 1]; e["page"] = json!(1); e["address"] = json!(0u64); } }
             "page:first" => { v["public_input"]["public_memory"][0]["page"] = json!(1); }
             "page:last-listed-first" => { let m = v["public_input"]["public_memory"].as_array_mut().unwrap(); let mut e = m.pop().unwrap(); e["page"] = json!(1); m.insert(0, e); }
             "memory:rotate" => { let m = v["public_input"]["public_memory"].as_array_mut().unwrap(); let e = m.pop().unwrap(); m.insert(0, e); }
